@@ -141,6 +141,14 @@ func genProject(r *Rng, engine string) Project {
 		}
 		p.Suffix = append(p.Suffix, "DROP TABLE "+strings.Join(drop, ", ")+";")
 	}
+	if r.Chance(20) {
+		// a column whose literal name equals the suffixed form of a repeated column
+		p.Tables = append(p.Tables, PTable{Name: "pairs", Cols: []PCol{{Name: "id", Type: "bigint", NotNull: true}, {Name: "id_2", Type: "bigint", NotNull: true}, {Name: "count", Type: "int", NotNull: true}, {Name: "count_2", Type: "int"}}})
+		if !used["SuffixClash"] {
+			used["SuffixClash"] = true
+			p.Queries = append(p.Queries, PQuery{Name: "SuffixClash", Cmd: ":many", SQL: "SELECT a.id, b.id, a.id_2, a.count, b.count, b.count_2 FROM pairs a JOIN pairs b ON b.id = a.id_2", Tags: []string{"suffix-clash"}})
+		}
+	}
 	for _, o := range []string{"emit_json_tags", "emit_db_tags", "emit_prepared_queries", "emit_interface", "emit_exact_table_names", "emit_empty_slices"} {
 		p.Opts[o] = r.Chance(35)
 	}
